@@ -148,7 +148,7 @@ class LockAnalysis:
         for c in self.db.class_insts(cls):
             for b in c.get('bases', []):
                 bn = norm(b.replace('class ', '').replace('struct ', ''))
-                if bn == base or self._derives(bn, base):
+                if bn == base or base.endswith('::' + bn) or self._derives(bn if '::' in bn else 'cocls::' + bn, base):
                     return True
             break
         return False
